@@ -180,7 +180,7 @@ func parseExpr(src string) (e Expr, err error) {
 type parseErr string
 
 func (p *parser) peek() tok { return p.toks[p.p] }
-func (p *parser) next() tok  { t := p.toks[p.p]; p.p++; return t }
+func (p *parser) next() tok { t := p.toks[p.p]; p.p++; return t }
 func (p *parser) expect(s string) {
 	t := p.next()
 	if t.s != s {
